@@ -22,6 +22,7 @@ import (
 	"fmt"
 	"io"
 	"sort"
+	"sync"
 	"time"
 
 	"github.com/containerd/containerd/v2/core/content"
@@ -113,6 +114,7 @@ func layerConvert(layerConvertFunc func(estargz.Compression) converter.ConvertFu
 		size   int64
 	}
 	esgzDigest2TOC := make(map[digest.Digest]tocInfo)
+	var esgzDigest2TOCMu sync.Mutex // layers are converted concurrently
 	// TODO: currently, all layers of all platforms are combined to one TOC manifest. Maybe we can consider
 	//       having a separated TOC manifest per platform.
 	converterFunc := func(ctx context.Context, cs content.Store, desc ocispec.Descriptor) (*ocispec.Descriptor, error) {
@@ -135,13 +137,17 @@ func layerConvert(layerConvertFunc func(estargz.Compression) converter.ConvertFu
 			return nil, err
 		}
 		verifhook.Gate("externaltoc.mapwrite.ready", desc.Digest)
+		esgzDigest2TOCMu.Lock()
 		verifhook.Gate("externaltoc.mapwrite.begin", desc.Digest)
 		esgzDigest2TOC[layerDgst] = tocInfo{dgst, size}
 		verifhook.Event("externaltoc.mapwrite.end", desc.Digest, layerDgst, dgst)
+		esgzDigest2TOCMu.Unlock()
 		return desc2, nil
 	}
 	finalizeFunc := func(ctx context.Context, cs content.Store, ref string, desc *ocispec.Descriptor) (*images.Image, error) {
 		var layers []ocispec.Descriptor
+		esgzDigest2TOCMu.Lock()
+		defer esgzDigest2TOCMu.Unlock()
 		for esgzDigest, toc := range esgzDigest2TOC {
 			layers = append(layers, ocispec.Descriptor{
 				MediaType: ocispec.MediaTypeImageLayerGzip,
